@@ -76,6 +76,7 @@ def run(ck, F, tier):
     ck.rule("V3", "quantiser range and shape")
     ck.rule("V4", "hook closures applied match the type name")
     ck.rule("V5", "layered update = extrinsic in, extrinsic + new message out")
+    ck.rule("V6", "the layered update reads its scratch vector only over the prefix written in the same call (zip with the same message slice; only len()/resize() otherwise)")
     ck.rule("V5b", "8-bit check rules work on quantised (i8, clipped) magnitudes only: abs/min/lookup never see the i16 accumulator")
     ck.trust("interval models of exp, ln_1p, round, abs, min, max, saturating_add, float->int `as` (saturating, NaN -> 0), Iterator::sum over at most %d terms" % maxdeg)
     ck.trust("type-field invariant (assume on load, prove on store): message values, quantised LLRs and scratch entries lie in [-127,127]")
@@ -293,6 +294,20 @@ def run(ck, F, tier):
             ok = isinstance(total, Poly) and isinstance(new, Poly) and oldv is not None and total == tgt - oldv + new and repr(vs.loops) == repr(ms.loops)
             why = "vars[d] <- %s ; msg.value <- new ; required vars[d] - old msg.value + new message, in the same loop as the message store (%s)" % (repr(total)[:120], ok)
         ck.inst("V5", ty + ":layered-update", ok, b.span, why)
+
+    # ---- V6 -------------------------------------------------------------------------------------------------
+    from .c10 import scratch_discipline
+    from ..decmodel import self_field_uses
+    for im in impls:
+        ty = im["self_ty"].rsplit("::", 1)[-1]
+        adt = F.adts.get(im["self_ty"])
+        scratch = [f["name"] for f in adt["variants"][0]["fields"] if f["ty"].startswith("std::vec::Vec<")] if adt else []
+        bb = F.body("<%s%s as %s>::update_check_messages_and_vars" % (ARI, ty, TRAIT))
+        uses = self_field_uses(bb)
+        for f in scratch:
+            if f in uses:
+                ok6, why6 = scratch_discipline(bb, f)
+                ck.inst("V6", "%s:%s" % (ty, f), ok6, bb.span, why6)
 
     # ---- V5b ------------------------------------------------------------------------------------------------
     for ty in sorted(eight):
